@@ -82,6 +82,11 @@ def main():
             sh("git reset -q HEAD -- . ; git checkout -- . ; git clean -fdq src unimock_macros tests", REPO)
         if WRITE_META:
             json.dump(meta, open(meta_path, "w"), indent=1)
+        else:
+            detail_path = OUT + ".detail.json"
+            detail = json.load(open(detail_path)) if os.path.exists(detail_path) else {}
+            detail[s] = meta.get("detected_by", {})
+            json.dump(detail, open(detail_path, "w"), indent=1, sort_keys=True)
         json.dump(matrix, open(matrix_path, "w"), indent=1, sort_keys=True)
 
 
